@@ -447,6 +447,25 @@ pub fn oracle_c02_live(si: &ScriptInfo, tr: &Trace, clause: &str) -> Option<Viol
     None
 }
 
+/// Bounded liveness per packet: every Reliable packet is delivered exactly once within `limit_ms` of its submission (for runs in which
+/// traffic goes on until the horizon, where the at-the-horizon clauses of `oracle_c02_live` cannot be asked).
+pub fn oracle_deadline(si: &ScriptInfo, tr: &Trace, clause: &str, limit_ms: u64) -> Option<Violation> {
+    let t_end = tr.obs.last().map_or(0, |o| o.t_ms);
+    for (i, o) in si.ops.iter().enumerate() {
+        if let OpKind::Send { mode: SendMode::Reliable, ch, size } = o.kind {
+            let t_sub = match tr.subs.iter().find(|s| s.side == o.side && s.round == o.round && s.ch == ch && s.size == size) { Some(s) => s.t_ms, None => continue };
+            if t_sub + limit_ms > t_end { continue; }
+            let n = tr.dels.iter().filter(|d| d.side == 1 - o.side && d.sub == Some(i) && d.t_ms <= t_sub + limit_ms).count();
+            if n != 1 {
+                let starved = starved_by_own_acks(tr, o.side, o.round).is_some();
+                return Some(viol(clause, if starved { format!("{}:undelivered-in-time:{}", clause, D28_MECH) } else { format!("{}:undelivered-in-time", clause) }, format!("Reliable packet ch{} size {} (op {}) submitted by side {} at t={} ms was delivered {} times in the {} s that followed on a network that delivers every frame{}", ch, size, i, o.side, t_sub, n, limit_ms / 1000, if starved { " (the sender had data queued for more than 60 s without emitting a data frame while its acknowledgements for the streaming peer used up its allowed rate)" } else { "" })));
+            }
+        }
+    }
+    None
+}
+pub const D28_MECH: &str = "no-data-frame-for-60s-while-acknowledging-a-streaming-peer-uses-up-the-allowed-rate";
+
 /// Attribution for known finding D28 by its mechanism, not by a number: for at least 60 s after the probes were submitted this side had
 /// data queued and put no data frame on the wire, while its peer kept submitting (at least one packet per second) and this side kept
 /// acknowledging, the acknowledgement frames alone using up at least half of what its allowed send rate admits (acknowledgements are
